@@ -194,6 +194,37 @@ func buildWorld(c *xs.Ctx, length int, depths []int, small bool) *world {
 		w.unverifiable[gm] = true
 		tw.Destroy()
 	}
+	// a momentum on the local tip, sealed by the elected pillar, whose content lists the same pooled send to an embedded
+	// contract twice (changes hash computed over the doubled content); the blocks shipped with it are dressed up so that
+	// the count of distinct identifiers matches the content: a copy of the send typed as a contract send, and a filler
+	{
+		tw := vnode.New(vnode.Options{Dir: c.TempDir()})
+		if _, err, pan := tw.InsertChain(vnode.CloneBatch(w.local)); err != nil || pan != nil {
+			panic(fmt.Sprintf("twice twin sync: %v %v", err, pan))
+		}
+		if out := ops.Apply(tw, ops.Op{K: "Call", S: "fuse", A: 3, B: 3, V: 20}); out != "ok" {
+			panic("harness: twice case: " + out)
+		}
+		pool := tw.PoolBlocks()
+		if len(pool) != 1 {
+			panic("harness: twice case: one pooled block expected")
+		}
+		send := vnode.CloneBlock(pool[0])
+		gm, err := tw.ForgeMomentum(0, []*nom.AccountBlock{pool[0], pool[0]})
+		if err != nil {
+			panic(fmt.Sprintf("harness: twice case: %v", err))
+		}
+		if len(gm.Momentum.Content) != 2 {
+			panic("harness: twice case: the content does not list the header twice")
+		}
+		gm.AccountBlocks = []*nom.AccountBlock{
+			{BlockType: nom.BlockTypeContractSend, Address: send.ToAddress, Hash: send.Hash, Height: send.Height, Amount: ops.Big(0)},
+			{BlockType: nom.BlockTypeContractSend, Address: send.ToAddress, Hash: types.NewHash([]byte("filler")), Height: 77, Amount: ops.Big(0)},
+		}
+		w.gapped = append(w.gapped, gappedCase{"same-send-listed-twice", []*nom.AccountBlock{send}, gm})
+		w.unverifiable[gm] = true
+		tw.Destroy()
+	}
 	// extension on top of local
 	ops.Apply(p, ops.Op{K: "T", A: 1, B: 2, V: 7})
 	ops.Apply(p, ops.Op{K: "Call", S: "stake", A: 3, V: 10})
@@ -590,7 +621,11 @@ func shapesFor(w *world) []*shape {
 		gc := gc
 		for _, known := range []int{0, 1} {
 			known := known
-			add(&shape{Name: fmt.Sprintf("extension-skipping-a-pooled-predecessor-%s-known-%d", gc.name, known),
+			name := fmt.Sprintf("extension-skipping-a-pooled-predecessor-%s-known-%d", gc.name, known)
+			if gc.name == "same-send-listed-twice" {
+				name = fmt.Sprintf("extension-listing-%s-known-%d", gc.name, known)
+			}
+			add(&shape{Name: name,
 				pre: func(n *vnode.Node, w *world) {
 					for _, b := range gc.blocks {
 						if e, pn := n.AddAccountBlocks([]*nom.AccountBlock{vnode.CloneBlock(b)}); e != nil || pn != nil {
